@@ -200,6 +200,10 @@ pub struct Profile {
     /// percentage of lattice programs that are restricted to Fix/FixJoin functions and use
     /// `CallSat` (value-dependent dependencies)
     pub sat_pct: u32,
+    /// percentage of programs with the "specify shape": creators that create a struct and specify
+    /// `on_ent_spec` for it under an input-dependent condition, an `on_ent_spec` body that reads
+    /// inputs, readers that call a creator and then `on_ent_spec` on its struct
+    pub spec_shape_pct: u32,
 }
 
 impl Profile {
@@ -231,6 +235,7 @@ impl Profile {
             coarse_hash_pct: 0,
             episode_pct: 0,
             sat_pct: 0,
+            spec_shape_pct: 0,
         }
     }
 }
@@ -310,6 +315,9 @@ pub fn gen_program(t: &mut Tape, pf: &Profile) -> Program {
     }
     if pf.intern_shape {
         return gen_intern_program(t, pf);
+    }
+    if pf.spec_shape_pct > 0 && t.pick(100) < pf.spec_shape_pct {
+        return gen_spec_program(t, pf);
     }
     let nslots = 1 + t.pick(pf.max_slots);
     let ncells = if pf.max_cells == 0 { 0 } else { t.pick(pf.max_cells + 1) };
@@ -605,6 +613,85 @@ fn lat_ops(t: &mut Tape, n: u32, _l0: u32, callable: u32, me: u32, kind: Kind, n
         v.push(op);
     }
     v
+}
+
+// ---------------------------------------------------------------------------------------------
+// C10 shape: creators `[Read?; NewEnt; Specify under an input-dependent condition]`, an
+// `on_ent_spec` body that reads inputs (so the computed value has stamps of its own), readers
+// `[Call creator; CallOnEntSpec]`. Switching between "specified" and "computed" by writes, with
+// writes to the body's inputs in between, is then a matter of a few history steps.
+// ---------------------------------------------------------------------------------------------
+pub fn gen_spec_program(t: &mut Tape, pf: &Profile) -> Program {
+    let nslots = 1 + t.pick(pf.max_slots);
+    let mut slots = Vec::new();
+    for _ in 0..nslots {
+        let mut s = [(0, D::Low); 2];
+        for f in &mut s {
+            *f = (t.pick(VMOD), D::from_idx(t.weighted(&pf.durs)));
+        }
+        slots.push(s);
+    }
+    let sf = |t: &mut Tape| (t.pick(nslots) as u8, t.pick(2) as u8);
+    let ncr = 1 + t.pick(2);
+    let nrd = 1 + t.pick(3);
+    let mut nodes = vec![];
+    for _ in 0..ncr {
+        let mut body = vec![];
+        if t.chance(1, 2) {
+            let (slot, field) = sf(t);
+            body.push(Op::Read { slot, field });
+        }
+        let nent = 1 + t.pick(2);
+        for h in 0..nent {
+            body.push(Op::NewEnt { ident: Src::Const(t.pick(pf.ident_dom.max(1))) });
+            let val = if t.chance(1, 2) { Src::Acc } else { Src::Const(t.pick(VMOD)) };
+            let spec = Op::Specify { h: h as u8, val };
+            let (slot, field) = sf(t);
+            let thr = 1 + t.pick(VMOD - 1);
+            match t.weighted(&[2, 4, 4, 1]) {
+                0 => body.push(spec),
+                1 => body.push(Op::If { slot, field, thr, then: vec![spec], els: vec![] }),
+                2 => body.push(Op::If { slot, field, thr, then: vec![], els: vec![spec] }),
+                _ => {}
+            }
+        }
+        nodes.push(Node { kind: Kind::Plain, nargs: 1, body, ret_h: true });
+    }
+    for i in 0..nrd {
+        let mut body = vec![];
+        body.push(Op::Call { node: t.pick(ncr) as u8, arg: Src::Const(0) });
+        let n = 1 + t.pick(3);
+        for _ in 0..n {
+            let (slot, field) = sf(t);
+            body.push(match t.weighted(&[1, 5, 2, 1, 1]) {
+                0 => Op::Read { slot, field },
+                1 => Op::CallOnEntSpec { h: t.pick(2) as u8 },
+                2 => Op::EntField { h: t.pick(2) as u8, which: t.pick(3) as u8 },
+                3 => Op::CallOnEnt { h: t.pick(2) as u8 },
+                _ => Op::Call { node: t.pick(ncr + i) as u8, arg: Src::Const(0) },
+            });
+        }
+        nodes.push(Node { kind: if t.chance(1, 5) { Kind::NoEq } else { Kind::Plain }, nargs: 1, body, ret_h: t.chance(1, 3) });
+    }
+    let mut special = |t: &mut Tape| -> Vec<Op> {
+        let n = 1 + t.pick(3);
+        (0..n)
+            .map(|_| {
+                let (slot, field) = sf(t);
+                match t.weighted(&[5, 2, 2]) {
+                    0 => Op::Read { slot, field },
+                    1 => Op::EntField { h: 0, which: t.pick(3) as u8 },
+                    _ => {
+                        let (s2, f2) = sf(t);
+                        Op::If { slot, field, thr: 1 + t.pick(VMOD - 1), then: vec![Op::Read { slot: s2, field: f2 }], els: vec![] }
+                    }
+                }
+            })
+            .collect()
+    };
+    let on_ent = special(t);
+    let on_ent_spec = special(t);
+    Program { slots, cells: vec![], nodes, base: ncr as u8, on_ent, on_ent_spec, on_sym: vec![Op::SymField { h: 0 }], lattice: false, coarse_hash: false }
 }
 
 // ---------------------------------------------------------------------------------------------
